@@ -401,9 +401,14 @@ def instance(cls, rng, cached, R=2, D=2):
 
 
 def probe(o, x, u=None):
-    """the function an object represents, at probe points."""
+    """the function an object represents, at probe points (for measures also its reported mass
+    and first moment, which read the cached log-partition function)."""
     if hasattr(o, "evaluate_ln"):
-        return np.asarray(o.evaluate_ln(x))
+        v = np.asarray(o.evaluate_ln(x)).ravel()
+        if hasattr(o, "log_integral"):
+            v = np.concatenate([v, np.asarray(o.log_integral()).ravel(),
+                                np.asarray(o.integrate("x")).ravel()])
+        return v
     if u is not None:
         q = o.condition_on_x_u(x, u)
         return np.asarray(q.evaluate_ln(J(np.zeros((2, q.D)))))
@@ -416,21 +421,31 @@ def run_roundtrip(cell, rec, seed):
 
     cls = cell["cls"]
     is_cond = "Conditional" in cls
-    variants = [(False, 2, 2)]
+    variants = [(False, 2, 2, 0)]
     if cls in ("GaussianMeasure", "GaussianDiagMeasure"):
-        variants.append((True, 2, 2))
-    # a second instance of the same class with a different configuration (dimension, batch,
-    # control function) crosses the same boundaries afterwards in the same process
-    variants.append((False, 1, 3))
-    for (cached, R_, D_) in variants:
-        rng = gen.rng_for(seed, "C18rt", cls, cached, R_, D_)
-        o, t = instance(cls, rng, cached, R=R_, D=D_)
+        variants.append((True, 2, 2, 0))
+    # further instances of the same class cross the same boundaries afterwards in the same
+    # process: one with a different configuration (dimension, batch), one with the SAME shapes
+    # but other values / another control function of the same factory, which goes through the
+    # very same jitted functions (compilation cache keyed on the pytree structure)
+    variants.append((False, 1, 3, 0))
+    variants.append((False, 2, 2, 1))
+    if cls in ("GaussianPDF", "GaussianDiagPDF"):
+        variants.append(("updated", 2, 2, 2))
+    jitted = {}
+    for (cached, R_, D_, inst) in variants:
+        rng = gen.rng_for(seed, "C18rt", cls, cached, R_, D_, inst)
+        o, t = instance(cls, rng, cached is True, R=R_, D=D_)
+        if cached == "updated":
+            # a density that was changed in place before it crosses the boundary
+            d_new, _ = build.mk_pdf(rng, 1, D_, kappa=10.0, scale=3.0, diag=cls == "GaussianDiagPDF")
+            o.update(JI([1]), d_new)
         u = t.get("u") if isinstance(t, dict) else None
         x = J(gen.vec(rng, 3, o.Dx if is_cond else D_))
         ref = probe(o, x, u)
         ns = 1.0 + np.max(np.abs(ref))
-        info = {"class": cls, "cached": cached, "R": R_, "D": D_}
-        tag = f"{cls}{'[cached]' if cached else ''}[R={R_},D={D_}]"
+        info = {"class": cls, "cached": cached, "R": R_, "D": D_, "instance": inst}
+        tag = f"{cls}{'[' + str(cached) + ']' if cached else ''}[R={R_},D={D_},#{inst}]"
 
         def same(name, o2, mech):
             rec.cell([tag, name], True)
@@ -449,30 +464,35 @@ def run_roundtrip(cell, rec, seed):
         if r is not None:
             same("tree round trip", r, "flatten")
         # jit identity
-        r = _call(rec, "jit(identity)", lambda: jax.jit(lambda a: a)(o), info,
-                  f"jit-identity-raises:{cls}")
+        jid = jitted.setdefault(("id", R_, D_), jax.jit(lambda a: a))
+        r = _call(rec, "jit(identity)", lambda: jid(o), info, f"jit-identity-raises:{cls}")
         if r is not None:
             same("jit(identity)", r, "jit-identity")
         # object as jit argument
         if u is not None:
-            fn = lambda a, xx: a.condition_on_x_u(xx, u).evaluate_ln(J(np.zeros((2, D_))))
+            fn = lambda a, xx, uu: a.condition_on_x_u(xx, uu).evaluate_ln(jnp.zeros((2, D_)))
         elif is_cond:
-            fn = lambda a, xx: a.condition_on_x(xx).evaluate_ln(xx)
+            fn = lambda a, xx, uu: a.condition_on_x(xx).evaluate_ln(xx)
+        elif hasattr(o, "log_integral"):
+            fn = lambda a, xx, uu: jnp.concatenate([a.evaluate_ln(xx).ravel(),
+                                                    a.log_integral().ravel(),
+                                                    a.integrate("x").ravel()])
         else:
-            fn = lambda a, xx: a.evaluate_ln(xx)
+            fn = lambda a, xx, uu: a.evaluate_ln(xx).ravel()
+        jfn = jitted.setdefault(("arg", R_, D_), jax.jit(fn))
         rec.cell([tag, "jit argument"], True)
-        v = _call(rec, "jit argument", lambda: np.asarray(jax.jit(fn)(o, x)), info,
-                  f"jit-argument-raises:{cls}")
+        v = _call(rec, "jit argument", lambda: np.asarray(jfn(o, x, u if u is not None else x)),
+                  info, f"jit-argument-raises:{cls}")
         if v is not None:
-            rec.close("object as jit argument: same function", v, ref, ns=ns, detail=info,
-                      mech=f"jit-argument-value:{cls}")
+            rec.close("object as jit argument: same function", v.ravel(), np.asarray(ref).ravel(),
+                      ns=ns, detail=info, mech=f"jit-argument-value:{cls}")
         # object as jit result (constructed inside from raw arrays)
         ctor = type(o)
         fields = {k: v for k, v in o.__dict__.items() if k in getattr(ctor, "__dataclass_fields__", {})
                   and ctor.__dataclass_fields__[k].init and v is not None}
         arrs = {k: v for k, v in fields.items() if hasattr(v, "shape")}
         stat = {k: v for k, v in fields.items() if not hasattr(v, "shape")}
-        if not cached:
+        if cached is False:
             r = _call(rec, "jit result", lambda: jax.jit(lambda a: ctor(**a, **stat))(arrs), info,
                       f"jit-result-raises:{cls}")
             if r is not None:
